@@ -45,7 +45,7 @@ pub const SYM_OPS: [&str; 2] = ["xor", "plus"];
 // ------------------------------------------------------------------------------------------------
 // The specification, written from the W3C text (https://www.w3.org/TR/compositing-1/), not from palette.
 // B(cb, cs): backdrop first, as in the recommendation.
-fn w3c_b(mode: &str, cb: f64, cs: f64) -> f64 {
+pub(crate) fn w3c_b(mode: &str, cb: f64, cs: f64) -> f64 {
     match mode {
         "multiply" => cb * cs,
         "screen" => cb + cs - cb * cs,
@@ -68,11 +68,11 @@ fn w3c_b(mode: &str, cb: f64, cs: f64) -> f64 {
     }
 }
 /// W3C §5/§10: `Cs' = (1 - αb)·Cs + αb·B(Cb, Cs)`, then source-over: `co = αs·Cs' + αb·Cb·(1 - αs)`, `αo = αs + αb·(1 - αs)`.
-fn w3c_blend_pre(b: f64, cs: f64, sa: f64, cb: f64, da: f64) -> f64 {
+pub(crate) fn w3c_blend_pre(b: f64, cs: f64, sa: f64, cb: f64, da: f64) -> f64 {
     let cs2 = (1.0 - da) * cs + da * b;
     sa * cs2 + da * cb * (1.0 - sa)
 }
-fn w3c_over_alpha(sa: f64, da: f64) -> f64 { sa + da * (1.0 - sa) }
+pub(crate) fn w3c_over_alpha(sa: f64, da: f64) -> f64 { sa + da * (1.0 - sa) }
 /// Porter-Duff fractions (Fa, Fb) of W3C §9.1: `co = αs·Fa·Cs + αb·Fb·Cb`, `αo = αs·Fa + αb·Fb`.
 fn pd_f(op: &str, sa: f64, da: f64) -> (f64, f64) {
     match op {
@@ -88,7 +88,7 @@ fn pd_f(op: &str, sa: f64, da: f64) -> (f64, f64) {
 
 // ------------------------------------------------------------------------------------------------
 #[derive(Clone, Copy)]
-pub struct Case<T, const N: usize> { s: [T; N], sa: T, d: [T; N], da: T }
+pub struct Case<T, const N: usize> { pub(crate) s: [T; N], pub(crate) sa: T, pub(crate) d: [T; N], pub(crate) da: T }
 
 fn hx<T: Fx>(a: &[T]) -> String { hx_list(a) }
 fn line_in<T: Fx, const N: usize>(s: &[T; N], sa: T, d: &[T; N], da: T) -> String {
@@ -464,7 +464,7 @@ fn threshold_pairs<T: Fx>(rng: &mut Rng) -> Vec<(T, T)> {
     v
 }
 
-fn pack<T: Fx, const N: usize>(pairs: &[(T, T)], alphas: &[(T, T)], out: &mut Vec<Case<T, N>>) {
+pub(crate) fn pack<T: Fx, const N: usize>(pairs: &[(T, T)], alphas: &[(T, T)], out: &mut Vec<Case<T, N>>) {
     for &(sa, da) in alphas {
         let mut i = 0;
         while i < pairs.len() {
